@@ -64,8 +64,13 @@ def walk_check(l, model):
     if r != ("ok", n):
         raise Mismatch("len", "len() == %r, reference %d" % (r, n))
     r = observe(lambda: [id(d) for d in l])
-    if r != ("ok", [id(x.data) for x in model]):
+    ids = [id(x.data) for x in model]
+    if r != ("ok", ids):
         raise Mismatch("iter", "list(l) disagrees with reference")
+    # an iteration that is still open while a second one runs (nothing is modified)
+    r = observe(lambda: [(id(d), [id(e) for e in l]) for d in l])
+    if r != ("ok", [(i, ids) for i in ids]):
+        raise Mismatch("iter", "[(d, list(l)) for d in l] disagrees with reference (two iterations at once)")
 
 
 class DLLSpec(Spec):
